@@ -1,11 +1,15 @@
 """C09 - which units feed the model follows the documented eligibility rules exactly.
 
  R1 complete truth table: rows(reporting frame) / rows(nonreporting frame) / rows(third frame) of get_units are equivalent to
-    the documented formulas over the per-unit atoms (in baseline join, pev vs threshold as lt/eq/gt, blocklists, zero baseline,
-    turnout factor vs both limits as lt/eq/gt, outlier flags, enabling switches);
+    the documented formulas over the per-unit atoms (in baseline join, pev vs threshold as lt/eq/gt or MISSING, blocklists, zero
+    baseline, turnout factor vs both limits as lt/eq/gt, outlier flags, enabling switches); a column has no `missing` case only
+    when the code establishes it (turnout_factor: nan_to_num in add_turnout_factor, stored by the constructor);
  R2 precedence of the non-modelled reasons = list order, duplicates dropped keeping the first; categories are the documented names;
  R3 derived quantities: every stored quotient is wrapped in nan_to_num(nan=0, posinf=0, neginf=0);
  R4 definitions: margin = dem - gop, weights = dem + gop, normalized = margin / weights, turnout_factor = results_weights / baseline_weights;
+    R4.margin-weights: add_estimand_baselines resets the weights to the turnout, so for the margin estimand the estimand function
+    runs on every path on which baseline dem / gop are columns (truth table over the guard's other atoms), also when the margin
+    baseline is already in the file;
  R5 defaults 0.5 / 2.0 / True / True / 2.0 and binding of every get_units argument to the model_parameters key of the same name;
  R6 baseline join (left, on state + unit id) and the two unreporting policies (drop = dropna any of the result columns; zero = fill
     0 and set percent_expected_vote to 0 on exactly the rows that had a missing result, and fill every results-derived column
@@ -31,12 +35,12 @@ def check(ctx):
     ctx.explanation = (
         "The three frames returned by CombinedDataHandler.get_units are converted (helpers inlined, outlier model opaque) into "
         "propositional formulas 'unit u is a row of this frame' and compared with the documented eligibility formulas by "
-        "complete truth table; comparisons are modelled as three-valued relations (lt / eq / gt), so boundary values are "
+        "complete truth table; comparisons are modelled as relations lt / eq / gt plus a 'missing' atom per column, so boundary and missing values are "
         "covered exactly. Derived-quantity definitions are compared as rational functions after resolving column reads "
         "through the assignment chain."
     )
     ctx.assumptions += ["unit ids are unique within the baseline and within the feed",
-                        "percent_expected_vote, turnout_factor and the limits are not NaN (three-valued comparison)",
+                        "the threshold and the turnout-factor limits are numbers (a column value may be missing: atom 'na:<column>')",
                         "the outlier model returns a row subset of the frame it is given (checked structurally)"]
     us = UnitSplit(ctx)
     f = us.f
@@ -45,7 +49,7 @@ def check(ctx):
     inData, inFeed = v("inData"), v("inFeed")
 
     def rel(col, rhs, vals):
-        return ("rel", ("rel", col, rhs), frozenset(vals))
+        return rs.compare(col, rhs, vals, never_missing=us.never_missing)
 
     PEV = rel("percent_expected_vote", "percent_reporting_threshold", {"eq", "gt"})
     blkU, blkS = v("geographic_unit_fips in unit_blocklist"), v("postal_code in postal_code_blocklist")
@@ -174,6 +178,11 @@ def check(ctx):
     ctx.ob("C09.R4.definition", "Estimandizer.add_turnout_factor|turnout_factor", got == want, tf.where(),
            "turnout_factor = nan_to_num(results_weights / baseline_weights, 0, 0, 0)" if got == want
            else f"turnout_factor is {got.key()}, documented {want.key()}")
+    # R4 (F25): add_estimand_baselines resets baseline_weights to the all-party turnout (add_weights) and relies on margin() to
+    # replace them by the two party vote; so for the margin estimand the estimand function must run whenever its inputs are
+    # there - in particular when a baseline_margin column is ALREADY present (the file that save_output=['data'] writes)
+    _margin_weights_rule(ctx, b)
+
     # R3: every quotient stored by margin / add_turnout_factor is NaN/inf-guarded with zeros
     nq = 0
     for fn in (mf, tf):
@@ -286,6 +295,65 @@ def check(ctx):
                         okder = True
                         ddetail = "zero: every results_* column and turnout_factor of the rows with missing results is filled with 0"
     ctx.ob("C09.R6.zero-derived", f"{ini.qualname}|policy zero fills the derived quantities", okder, ini.where(), ddetail)
+
+
+def _margin_weights_rule(ctx, b):
+    aeb = ctx.fn(EST, "Estimandizer.add_estimand_baselines")
+    ret = b.summarize(aeb).ret()
+
+    def is_est_call(t):  # globals()[<estimand>](frame, BASELINE_PREFIX)
+        return (t[0] == "call" and t[1][0] == "sub" and t[1][1][0] == "call" and t[1][1][1] == ("global", "globals")
+                and any(ir.show(a).endswith("BASELINE_PREFIX") for a in t[2]))
+
+    def has_call(t):
+        return any(is_est_call(x) for x in ir.walk(t))
+
+    resets = [x for x in ir.walk(ret) if x[0] == "call" and x[1][0] == "attr" and x[1][2] == "add_weights"
+              and any(ir.show(a).endswith("BASELINE_PREFIX") for a in x[2])]
+    ncalls = len({x for x in ir.walk(ret) if is_est_call(x)})
+    ctx.sites("C09.R4.margin-weights", ncalls, 1, "estimand-function call on the baseline in add_estimand_baselines")
+    if not resets:
+        ctx.ob("C09.R4.margin-weights", f"{aeb.qualname}|margin baseline recomputed when its inputs are present", True, aeb.where(),
+               "the baseline weights are not reset to the turnout here, so a present margin baseline keeps the weights it came with")
+        return
+    atoms = {}
+
+    def formula(c):
+        if c[0] == "bool":
+            parts = [formula(x) for x in c[2]]
+            return And(*parts) if c[1] == "and" else Or(*parts)
+        if c[0] == "un" and c[1] == "not":
+            return Not(formula(c[2]))
+        strs = [x[1] for x in ir.walk(c) if x[0] == "const" and isinstance(x[1], str)]
+        if c[0] == "cmp" and c[1] in ("==", "!=") and ("const", "margin") in (c[2], c[3]):
+            return rs.T if c[1] == "==" else rs.F  # the estimand is margin
+        if c[0] == "cmp" and c[1] in ("in", "notin", "not in") and ("const", "margin") in (c[2], c[3]):
+            return rs.T if c[1] == "in" else rs.F
+        if any(x in ("dem", "gop") for x in strs) and "columns" in ir.show(c, maxdepth=8):
+            return rs.T  # the inputs of the margin (baseline dem and gop) are columns
+        name = ir.show(c, maxdepth=5)
+        atoms[name] = c
+        return ("var", name)
+
+    bad = None
+    nphi = 0
+    for x in ir.walk(ret):
+        if x[0] != "phi":
+            continue
+        a, bb = has_call(x[2]), has_call(x[3])
+        if a == bb:
+            continue
+        nphi += 1
+        need = formula(x[1]) if a else Not(formula(x[1]))
+        ok, cex, _ = rs.equivalent(need, rs.T)
+        if not ok and bad is None:
+            bad = ", ".join(f"{k} is {v}" for k, v in sorted(cex.items())) or "always"
+    ok = bad is None
+    ctx.ob("C09.R4.margin-weights", f"{aeb.qualname}|margin baseline recomputed when its inputs are present", ok, aeb.where(),
+           f"for the margin estimand with baseline dem/gop columns the estimand function runs on every path ({nphi} guarded call(s)), "
+           "so the weights reset by add_weights become the two party vote again" if ok else
+           f"add_weights resets baseline_weights to the turnout, and margin() - which makes them the two party vote - is skipped when [{bad}]: "
+           "a baseline that already has the margin column (a file written by save_output=['data']) keeps all-party weights")
 
 
 def _const_col(Fm, fr, col):
